@@ -122,8 +122,8 @@ class Run:
         block = e.tags["Block"].get_value()
         blk = None
         if block not in (None, ""):
-            cands = [k for k, (n, _) in enumerate(self.table) if type(n).__name__ == "BlockNode" and n.name == block
-                     and n.lock_acquired]
+            # block names are unique in generated methods; the named block may have been reset (an alarm re-armed around it)
+            cands = [k for k, (n, _) in enumerate(self.table) if type(n).__name__ == "BlockNode" and n.name == block]
             blk = cands[0] if cands else -1
         le = interp._last_error
         return dict(nodes=nodes, interrupts=[self.byid.get(i.node.id, -1) for i in interp.interrupts], block=blk,
